@@ -1,4 +1,4 @@
-CONSTANTS Conns <- C2  Reqs <- R4  ConnOf <- CO4  N = 0  Q = 1  Calls <- K2  LateRelease = TRUE  RT = FALSE
+CONSTANTS Conns <- C2  Reqs <- R4  ConnOf <- CO4  N = 0  Q = 1  Calls <- K2  LateRelease = TRUE  RT = FALSE  SelfNotify = TRUE
 SPECIFICATION Spec
 INVARIANTS TypeOK ReadImpliesAnswered NoLateWrite ReturnsWhenDrained Notified
 PROPERTIES ReadGetsAnswered ShutdownDrains
